@@ -6,6 +6,7 @@ import (
 	"fmt"
 	"os"
 	"path/filepath"
+	"runtime/pprof"
 	"sort"
 	"strconv"
 	"strings"
@@ -170,6 +171,8 @@ type HarnessResult struct {
 	SamplePC    string            `json:"sample_pc,omitempty"`
 }
 
+var concreteTape []TapeEntry
+
 func (w *World) newInterp(ex *Explorer, pkg *ssa.Package) *Interp {
 	in := NewInterp(w.prog, ex)
 	in.harnessPkg = pkg
@@ -230,6 +233,7 @@ func runHarness(w *World, solver *Solver, pkgName, harness string, params map[st
 	ex.curParams = params
 	in := w.newInterp(ex, pkg)
 	in.params = params
+	in.tape = concreteTape
 	ex.setModel(map[*Term]uint64{})
 	in.runInit(pkg)
 	base := solver.Stats
@@ -243,7 +247,8 @@ func runHarness(w *World, solver *Solver, pkgName, harness string, params map[st
 		ex.beginPath()
 		in.epoch++
 		in.nondetN = 0
-		in.steps0()
+		in.totalSteps += in.steps
+		in.steps = 0
 		in.unwind = 4200
 		in.trackShared = false
 		in.mapOrderSym = false
@@ -307,6 +312,9 @@ func runHarness(w *World, solver *Solver, pkgName, harness string, params map[st
 				ex.samplePC = sb.String()
 			}
 		}()
+		if os.Getenv("GOSYM_PROGRESS") != "" && ex.Paths%200 == 0 {
+			fmt.Fprintf(os.Stderr, "progress: paths=%d queries=%d solver=%.1fs slow=%d restarts=%d wall=%.1fs pc=%d\n", ex.Paths, solver.Stats.Queries, solver.Stats.Seconds, solver.Stats.Slow, solver.Stats.Restarts, time.Since(t0).Seconds(), len(ex.pc))
+		}
 		if maxPaths > 0 && ex.Paths >= maxPaths {
 			ex.Samples = append(ex.Samples, fmt.Sprintf("path limit %d reached", maxPaths))
 			ex.UnwindFail++
@@ -320,7 +328,6 @@ func runHarness(w *World, solver *Solver, pkgName, harness string, params map[st
 	return res
 }
 
-func (in *Interp) steps0() {}
 
 func fillResult(res *HarnessResult, in *Interp, ex *Explorer, solver *Solver, base SolverStats, t0 time.Time) {
 	res.Paths = ex.Paths
@@ -330,7 +337,7 @@ func fillResult(res *HarnessResult, in *Interp, ex *Explorer, solver *Solver, ba
 	res.Asserts = ex.Asserts
 	res.AssertsTriv = ex.AssertsTrivial
 	res.UnwindFail = ex.UnwindFail
-	res.Unknown = ex.Unknown
+	res.Unknown = ex.Unknown + ex.Mismatch
 	res.Unsupported = ex.Unsupported
 	res.Failures = ex.Failures
 	res.KnownHits = ex.KnownHits
@@ -338,7 +345,7 @@ func fillResult(res *HarnessResult, in *Interp, ex *Explorer, solver *Solver, ba
 	res.AssertPaths = ex.assertPaths
 	res.Shared = ex.shareWrites
 	res.Samples = ex.Samples
-	res.Steps = in.steps
+	res.Steps = in.totalSteps + in.steps
 	res.Out = ex.Out
 	if res.Solver.Errors > 0 {
 		res.SolverErr = solver.lastErr
@@ -377,7 +384,28 @@ func main() {
 	timeout := flag.Int("timeout", 60000, "solver timeout ms")
 	maxPaths := flag.Int("maxpaths", 0, "path limit")
 	solverBin := flag.String("solver", "z3-new", "solver binary")
+	prof := flag.String("cpuprofile", "", "write cpu profile")
+	tapeFile := flag.String("tape", "", "witness json: run the harness concretely on its tape")
 	flag.Parse()
+	if *tapeFile != "" {
+		data, err := os.ReadFile(*tapeFile)
+		if err != nil {
+			panic(err)
+		}
+		var wj struct {
+			Tape []TapeEntry `json:"tape"`
+		}
+		json.Unmarshal(data, &wj)
+		concreteTape = wj.Tape
+		if concreteTape == nil {
+			concreteTape = []TapeEntry{}
+		}
+	}
+	if *prof != "" {
+		f, _ := os.Create(*prof)
+		pprof.StartCPUProfile(f)
+		defer pprof.StopCPUProfile()
+	}
 	pm := map[string]int{}
 	for _, p := range params {
 		kv := strings.SplitN(p, "=", 2)
@@ -389,6 +417,23 @@ func main() {
 	solver := NewSolver([]string{*solverBin, "-in"}, *timeout)
 	defer solver.Close()
 	res := runHarness(w, solver, parts[0], parts[1], pm, map[string]bool{}, *maxPaths)
+	if brStatOn {
+		type kv struct {
+			k string
+			v int
+		}
+		var l []kv
+		for k, v := range brStat {
+			l = append(l, kv{k, v})
+		}
+		sort.Slice(l, func(i, j int) bool { return l[i].v > l[j].v })
+		for i, x := range l {
+			if i > 40 {
+				break
+			}
+			fmt.Fprintf(os.Stderr, "%8d %s\n", x.v, x.k)
+		}
+	}
 	out, jerr := json.MarshalIndent(res, "", " ")
 	if jerr != nil {
 		fmt.Fprintln(os.Stderr, "json:", jerr)
